@@ -1,0 +1,70 @@
+//go:build verif
+
+package parser
+
+import (
+	"github.com/ajitpratap0/GoSQLX/pkg/models"
+	"github.com/ajitpratap0/GoSQLX/pkg/sql/ast"
+	"github.com/ajitpratap0/GoSQLX/pkg/sql/token"
+)
+
+// VerifState is a snapshot of the unexported parser state, for the verification harness only.
+type VerifState struct {
+	Pos          int
+	Depth        int
+	NTokens      int
+	HasCtx       bool
+	NPositions   int
+	Strict       bool
+	Dialect      string
+	CurrentType  int
+	CurrentValue string
+}
+
+// VerifState returns a snapshot of the parser's internal state.
+func (p *Parser) VerifState() VerifState {
+	return VerifState{
+		Pos:          p.currentPos,
+		Depth:        p.depth,
+		NTokens:      len(p.tokens),
+		HasCtx:       p.ctx != nil,
+		NPositions:   len(p.positions),
+		Strict:       p.strict,
+		Dialect:      p.dialect,
+		CurrentType:  int(p.currentToken.Type),
+		CurrentValue: p.currentToken.Literal,
+	}
+}
+
+// VerifParseStatementAt positions the cursor at pos in tokens and runs parseStatement once.
+// It returns the statement, the cursor position afterwards and the error.
+func (p *Parser) VerifParseStatementAt(tokens []token.Token, pos int) (ast.Statement, int, error) {
+	p.tokens = tokens
+	p.currentPos = pos
+	if pos < len(tokens) {
+		p.currentToken = tokens[pos]
+	}
+	stmt, err := p.parseStatement()
+	return stmt, p.currentPos, err
+}
+
+// VerifSynchronize positions the cursor at pos in tokens and runs the recovery synchronisation once.
+func (p *Parser) VerifSynchronize(tokens []token.Token, pos int) int {
+	p.tokens = tokens
+	p.currentPos = pos
+	if pos < len(tokens) {
+		p.currentToken = tokens[pos]
+	}
+	p.synchronize()
+	return p.currentPos
+}
+
+// VerifConvertModelTokens exposes the token conversion used by every ParseFromModelTokens variant.
+func VerifConvertModelTokens(tokens []models.TokenWithSpan) ([]token.Token, error) {
+	return convertModelTokens(tokens)
+}
+
+// VerifConvertModelTokensWithPositions exposes the position-tracking token conversion.
+func VerifConvertModelTokensWithPositions(tokens []models.TokenWithSpan) (*ConversionResult, error) {
+	return convertModelTokensWithPositions(tokens)
+}
